@@ -40,7 +40,29 @@ def cases(rng, tier):
     out = [pipeline.gen_case(rng, tier, methods=('cycles', 'cycles', 'amp'), fek_prob=0.5, wide=True, f32=True, rs_prob=0.6)
            for _ in range(n)]
     out += [pipeline.gen_shape_case(rng, tier) for _ in range(m)]
+    out += [long_recording(rng, tier) for _ in range(3 if tier == 'quick' else 12)]
     return out
+
+
+def long_recording(rng, tier):
+    """Long recordings with a huge dynamic range: 12 000 - 20 000 samples of a noisy rhythm in which an early stretch (an
+    unclipped artefact, a segment in the wrong unit) is 1e6 - 1e12 times larger than the rest.  An error of a feature that
+    grows with the length of the recording or with what precedes the cycle (running sums, global normalisation) shows
+    only here.  Judged by the statement oracle alone (`long`: the Coq evaluation of 20 000 samples would take minutes)."""
+    import numpy as np
+    n = rng.choice([12000, 16000, 20000])
+    fs = rng.choice([500, 1000])
+    period = rng.choice([40, 50, 64])
+    nr = np.random.default_rng(rng.randrange(2 ** 31))
+    sig = np.sin(2 * np.pi * np.arange(n) / period + rng.random() * 6.28) + 0.1 * nr.standard_normal(n)
+    a0 = rng.randrange(100, n // 8)
+    a1 = a0 + rng.randrange(n // 12, n // 6)
+    sig[a0:a1] *= rng.choice([1e6, 1e9, 1e12])
+    f0 = fs / period
+    s = {'sig': sig, 'fs': fs, 'f_range': (round(0.8 * f0, 3), round(1.25 * f0, 3)), 'kind': 'long-artefact', 'period': period}
+    c = pipeline.gen_case(rng, tier, methods=('cycles',), fek_prob=0.2, signal=s, exact_k=None, other=False, short=False, rs_prob=0.7)
+    c['long'] = True
+    return c
 
 
 def run_impl(c):
